@@ -147,6 +147,8 @@ def execute(cases, exe, model, variant):
     impl = C.run_cases(exe, texts, timeout=900)
     mcases = ["\n".join(lines) + "\n" for lines, crash in impl]
     mod = C.run_cases(model, mcases, timeout=900, env={"C05_VARIANT": variant})
+    if any(crash for _, crash in impl):
+        sweep_residue()
     return impl, mod
 
 
@@ -345,3 +347,24 @@ def judge(impl, mod, known_ids=()):
     if hits:
         return ("known", "", {}, hits)
     return None
+
+
+def sweep_residue():
+    """A harness process that was killed cannot tidy up: remove /dev/shm directories of lab services (files named
+    ...-va<pid>_<n>...) whose server process is gone, so that a later process with a recycled pid does not inherit them."""
+    import shutil
+    try:
+        names = os.listdir("/dev/shm")
+    except OSError:
+        return
+    for d in names:
+        m = re.match(r"qb-(\d+)-\d+-\d+-\w{6}$", d)
+        if not m or os.path.exists("/proc/%s" % m.group(1)):
+            continue
+        p = os.path.join("/dev/shm", d)
+        try:
+            inner = os.listdir(p)
+            if inner and all(("-va%s_" % m.group(1)) in f for f in inner):
+                shutil.rmtree(p, ignore_errors=True)
+        except OSError:
+            pass
